@@ -117,6 +117,7 @@ def oracle(p):
     rng = random.Random(p["seed"])
     n = p["n"]
     fails, counts = [], {}
+    derived_fail = []
 
     def fail(key, what, case):
         fails.append({"key": key, "what": what, "case": case})
@@ -136,18 +137,40 @@ def oracle(p):
             g["align_corners"] = base["align_corners"]
             gds.append(g)
         grids = [mk(g) for g in gds]
-        case = {"D": D, "N": N, "shared": shared, "grids": gds}
+        derived = None
+        if it % 4 == 3:
+            # grids with a FRACTIONAL stored size (Grid.downsample of odd sizes / resampling to a non-dividing spacing)
+            derived = rng.choice(["downsample", "resample"])
+            try:
+                if derived == "downsample":
+                    dg = [g.downsample() for g in grids]
+                else:
+                    f_ = rng.choice([1.5, 1.25, 2.5])
+                    dg = [g.resample(tuple(float(s_) * f_ for s_ in g.spacing())) for g in grids]
+                if len({tuple(g.shape) for g in dg}) != 1 or min(dg[0].shape) < 2:
+                    derived = None
+                else:
+                    grids = dg
+            except AssertionError:
+                # Grid._resize self-check (float32 cancellation for large centers): a C03 matter, not exercised here
+                counts["derived-grid:AssertionError"] = counts.get("derived-grid:AssertionError", 0) + 1
+                derived_fail.append({"how": derived, "grids": gds})
+                derived = None
+        case = {"D": D, "N": N, "shared": shared, "grids": gds, "derived": derived}
+        gshape = tuple(grids[0].shape)
         ext = float(min(float(g.cube_extent().min()) for g in grids))
         amp = 0.08 * ext
         world = torch.stack([(smooth_field(g, rng, amp) if rng.random() < 0.6 else affine_world(g, rng, amp)) for g in grids])
         W = FlowFields(world, grids, axes=Axes.WORLD)
         sc = float(world.abs().max()) + 1e-9
         a, b, c3 = (rng.choice(AXN) for _ in range(3))
+        if derived and rng.random() < 0.6:
+            a = "CUBE"            # the fractional stored size enters the CUBE -> * vector scaling
         case.update(a=a, b=b, c=c3)
         try:
             FA = W.axes(AX[a])
             FB = FA.axes(AX[b])
-            count(f"axes:{a}->{b}")
+            count(f"axes:{a}->{b}" + (":fractional-size" if derived else ""))
             # round trip, path independence, own grid's vector map
             back = FB.axes(AX[a])
             d = float((back.tensor() - FA.tensor()).abs().max()) / (float(FA.tensor().abs().max()) + 1e-9)
@@ -182,6 +205,28 @@ def oracle(p):
             fail(f"C10:FlowFields.axes:raises:{a}->{b}", f"raised {type(e).__name__}: {str(e)[:150]}", case)
             continue
 
+        # append / from_images of fields given in different representations: same world-space vectors item by item
+        try:
+            WB = W.axes(AX[b])
+            count("append")
+            cat = FA.append(WB)
+            if cat.axes() is not AX[a] or len(cat) != 2 * N:
+                fail(f"C10:FlowFields.append:label:{a}<-{b}", f"append of a {b} batch to a {a} batch is labelled {cat.axes()} with {len(cat)} items", case)
+            d = float((cat.axes(Axes.WORLD).tensor() - torch.cat([world, world])).abs().max())
+            if not d <= 3e-4 * sc:
+                fail(f"C10:FlowFields.append:repr-dependent:{a}<-{b}",
+                     f"a.append(b) with a in {a} and b in {b} axes (same world-space fields): world vectors of the result differ by {d:.3g} "
+                     f"(amplitude {sc:.3g})", case)
+            fields = [FlowField(FA.tensor()[0], grids[0], axes=AX[a]), FlowField(WB.tensor()[N - 1], grids[N - 1], axes=AX[b])]
+            fi = FlowFields.from_images(fields)
+            count("from_images")
+            d = float((fi.axes(Axes.WORLD).tensor() - torch.stack([world[0], world[N - 1]])).abs().max())
+            if not d <= 3e-4 * sc:
+                fail(f"C10:FlowFields.from_images:repr-dependent:{a},{b}",
+                     f"from_images of one field in {a} and one in {b} axes: world vectors of the batch differ by {d:.3g} (amplitude {sc:.3g})", case)
+        except Exception as e:  # noqa
+            fail(f"C10:FlowFields.append:raises:{a}<-{b}", f"raised {type(e).__name__}: {str(e)[:150]}", case)
+
         # exp: same world-space result regardless of the representation
         if it % 2 == 0:
             try:
@@ -207,7 +252,7 @@ def oracle(p):
         # warp_image: same warped image regardless of the representation
         if it % 2 == 1:
             try:
-                img = ImageBatch(torch.rand((N, 1) + tuple(reversed(base["size"])), dtype=torch.float64,
+                img = ImageBatch(torch.rand((N, 1) + gshape, dtype=torch.float64,
                                             generator=torch.Generator().manual_seed(rng.randrange(10 ** 6))), grids)
                 ref = W.axes(Axes.CUBE).warp_image(img).tensor()
                 got = FA.warp_image(img).tensor()
@@ -225,7 +270,7 @@ def oracle(p):
         if it % 3 == 0:
             try:
                 to = []
-                tsize = [max(2, s_ + rng.choice([-1, 0, 1, 2])) for s_ in base["size"]]
+                tsize = [max(2, s_ + rng.choice([-1, 0, 1, 2])) for s_ in reversed(gshape)]
                 for g in gds:
                     t = dict(g)
                     t["size"] = tsize
@@ -300,9 +345,17 @@ def oracle(p):
             d = float((arr - W.tensor()).abs().max())
             if not d <= 1e-4 * (float(W.tensor().abs().max()) + 1e-9) + 1e-6:
                 fail(f"C10:FlowField.sitk:world-axes:{a}", f"sitk() of a field given w.r.t. {a} does not hold the world-space vectors (diff {d:.3g})", {"grid": gd})
+            # explicit axes: sitk(axes=X) stores X vectors, from_sitk(image, axes=X) reads them back as X vectors
+            xax = rng.choice(AXN)
+            back = FlowField.from_sitk(FA.sitk(axes=AX[xax]), axes=AX[xax], align_corners=g.align_corners())
+            count("sitk-explicit-axes-roundtrip")
+            d = float((back.axes(Axes.WORLD).tensor() - W.tensor()).abs().max())
+            if back.axes() is not AX[xax] or not d <= 2e-4 * (float(W.tensor().abs().max()) + 1e-9) + 1e-6:
+                fail(f"C10:FlowField.sitk:explicit-axes-roundtrip:{xax}",
+                     f"from_sitk(sitk(axes={xax}), axes={xax}) does not give back the field (world diff {d:.3g})", {"grid": gd})
     except ImportError:
         pass
-    return {"fails": fails, "counts": counts}
+    return {"fails": fails, "counts": counts, "derived_fail": derived_fail[:2]}
 
 
 if __name__ == "__main__":
